@@ -88,6 +88,13 @@ Definition is_pixel_enc (e : Z) : bool :=
   (e =? enc_Ultra) || (e =? enc_Zlib) || (e =? enc_ZRLE) || (e =? enc_ZYWRLE) || (e =? enc_Tight) ||
   (e =? enc_TightPng).
 
+(* pixel sizes: 8, 16, 32 bits for every encoding; this build (LIBVNCSERVER_ALLOW24BPP) also accepts a
+   24-bit client format, which only the encodings that copy translated pixels verbatim can serve *)
+Definition bpp_generic_enc (e : Z) : bool :=
+  (e =? enc_Raw) || (e =? enc_CopyRect) || (e =? enc_Zlib) || (e =? enc_Ultra).
+Definition bpp_allowed (s : pst) (e : Z) : bool :=
+  (p_bpp s =? 8) || (p_bpp s =? 16) || (p_bpp s =? 32) || ((p_bpp s =? 24) && bpp_generic_enc e).
+
 (* "{Raw} U encodings named in some SetEncodings so far" *)
 Definition enc_advertised (s : pst) (e : Z) : bool := (e =? enc_Raw) || mem e (p_named s).
 
@@ -110,31 +117,35 @@ Definition compact_len (l : list Z) : pres Z :=
 (* TurboVNC extension spoken by this server (compression level 0): rfbTightNoZlib = 0x0A in the
    control nibble means basic compression whose data bytes are sent uncompressed after the
    compact length (which must then equal the data length).  Only for rfbEncodingTight. *)
+(* the pixel data of a basic-compression rectangle: verbatim below TIGHT_MIN_TO_COMPRESS bytes,
+   otherwise compact length + bytes (for NoZlib the length must be the data length) *)
+Definition tight_data (nozlib : bool) (datalen : Z) (l : list Z) : pres unit :=
+  if datalen <? TIGHT_MIN_TO_COMPRESS then skip datalen l
+  else pbind (compact_len l) (fun n l2 =>
+         if nozlib && negb (n =? datalen) then PFail (Bad E_TIGHT_CTL) else skip n l2).
+
+Definition tight_basic (s : pst) (w h : Z) (explicit nozlib : bool) (l1 : list Z) : pres unit :=
+  if explicit then
+    pbind (u8 l1) (fun filt l2 =>
+      if filt =? tightFilterPalette then
+        pbind (u8 l2) (fun nc1 l3 =>
+          let nc := nc1 + 1 in
+          pbind (skip (nc * tight_pix s) l3) (fun _ l4 =>
+            tight_data nozlib (if nc <=? 2 then ((w + 7) / 8) * h else w * h) l4))
+      else if (filt =? tightFilterCopy) || (filt =? tightFilterGradient) then tight_data nozlib (w * h * tight_pix s) l2
+      else PFail (Bad E_TIGHT_CTL))
+  else tight_data nozlib (w * h * tight_pix s) l1.
+
 Definition tight_body (s : pst) (enc w h : Z) (l : list Z) : pres unit :=
   pbind (u8 l) (fun ctl l1 =>
     let comp := ctl / 16 in
-    let basic (explicit nozlib : bool) : pres unit :=
-      let data (datalen : Z) (l' : list Z) : pres unit :=
-          if datalen <? TIGHT_MIN_TO_COMPRESS then skip datalen l'
-          else pbind (compact_len l') (fun n l2 =>
-                 if nozlib && negb (n =? datalen) then PFail (Bad E_TIGHT_CTL) else skip n l2) in
-      if explicit then
-        pbind (u8 l1) (fun filt l2 =>
-          if filt =? tightFilterPalette then
-            pbind (u8 l2) (fun nc1 l3 =>
-              let nc := nc1 + 1 in
-              pbind (skip (nc * tight_pix s) l3) (fun _ l4 =>
-                data (if nc <=? 2 then ((w + 7) / 8) * h else w * h) l4))
-          else if (filt =? tightFilterCopy) || (filt =? tightFilterGradient) then data (w * h * tight_pix s) l2
-          else PFail (Bad E_TIGHT_CTL))
-      else data (w * h * tight_pix s) l1 in
     if comp =? tightFill then skip (tight_pix s) l1
     else if comp =? tightJpeg then pbind (compact_len l1) (fun n l2 => skip n l2)
     else if (enc =? enc_TightPng) && (comp =? tightPng) then pbind (compact_len l1) (fun n l2 => skip n l2)
-    else if (enc =? enc_Tight) && (comp =? tightNoZlib) then basic false true
-    else if (enc =? enc_Tight) && (comp =? tightNoZlib + tightExplicitFilter) then basic true true
+    else if (enc =? enc_Tight) && (comp =? tightNoZlib) then tight_basic s w h false true l1
+    else if (enc =? enc_Tight) && (comp =? tightNoZlib + tightExplicitFilter) then tight_basic s w h true true l1
     else if comp >=? tightFill then PFail (Bad E_TIGHT_CTL)
-    else basic (Z.testbit comp 2) false).
+    else tight_basic s w h (Z.testbit comp 2) false l1).
 
 (* Hextile: 16x16 tiles, left to right, top to bottom *)
 Fixpoint hextile_tiles (fuel : nat) (bp w h tx ty : Z) (l : list Z) : pres unit :=
@@ -160,7 +171,8 @@ Fixpoint hextile_tiles (fuel : nat) (bp w h tx ty : Z) (l : list Z) : pres unit 
             else next l3)))
   end.
 
-Definition hextile_fuel (w h : Z) : nat := S (Z.to_nat (((Z.max 0 w + 15) / 16) * ((Z.max 0 h + 15) / 16))).
+(* every tile consumes at least its subencoding byte: the stream length bounds the number of tiles *)
+Definition hextile_fuel (l : list Z) : nat := S (length l).
 
 Definition len32_body (l : list Z) : pres unit := pbind (u32 l) (fun n l1 => skip n l1).
 
@@ -181,7 +193,7 @@ Definition rect_payload (s : pst) (hd : hdr) (l5 : list Z) : pres (hdr * rect_ki
     let ok (k : rect_kind) (s' : pst) (r : pres unit) : pres (hdr * rect_kind * pst) :=
         pbind r (fun _ rest => POk (hd, k, s') rest) in
     if is_pixel_enc e then
-      if negb ((p_bpp s =? 8) || (p_bpp s =? 16) || (p_bpp s =? 32)) then PFail (Bad E_BPP)
+      if negb (bpp_allowed s e) then PFail (Bad E_BPP)
       else if negb (enc_advertised s e) then PFail (Bad E_ENC_NOT_ADVERTISED)
       else if (x + w >? p_fbw s) || (y + h >? p_fbh s) then PFail (Bad E_OUTSIDE)
       else if e =? enc_Raw then ok RkPixel s (skip (w * h * bp) l5)
@@ -193,7 +205,7 @@ Definition rect_payload (s : pst) (hd : hdr) (l5 : list Z) : pres (hdr * rect_ki
         ok RkPixel s (pbind (u32 l5) (fun n l6 => skip (bp + n * (bp + 8)) l6))
       else if e =? enc_CoRRE then
         ok RkPixel s (pbind (u32 l5) (fun n l6 => skip (bp + n * (bp + 4)) l6))
-      else if e =? enc_Hextile then ok RkPixel s (hextile_tiles (hextile_fuel w h) bp w h 0 0 l5)
+      else if e =? enc_Hextile then ok RkPixel s (hextile_tiles (hextile_fuel l5) bp w h 0 0 l5)
       else if (e =? enc_Tight) || (e =? enc_TightPng) then ok RkPixel s (tight_body s e w h l5)
       else ok RkPixel s (len32_body l5)              (* Zlib, ZRLE, ZYWRLE, Ultra *)
     else if e =? enc_LastRect then
@@ -402,6 +414,64 @@ Definition check_handshake (sc : screen_id) (h : hs_script) (l : list Z) : bool 
   end.
 
 (* ---------------------------------------------------------------- printer (for the round trip) *)
+(* Hextile tiles *)
+Inductive tile :=
+| TRaw (data : list Z)
+| TSub (bg fg : option (list Z)) (subs : option (bool * list (list Z))).   (* coloured?, subrect records *)
+
+Definition optbytes (o : option (list Z)) : list Z := match o with Some l => l | None => [] end.
+
+Definition tile_flags (t : tile) : Z :=
+  match t with
+  | TRaw _ => hextileRaw
+  | TSub bg fg subs =>
+      (match bg with Some _ => hextileBg | None => 0 end) + (match fg with Some _ => hextileFg | None => 0 end) +
+      (match subs with Some (c, _) => hextileAnySub + (if c then hextileColoured else 0) | None => 0 end)
+  end.
+
+Definition print_tile (t : tile) : list Z :=
+  match t with
+  | TRaw d => tile_flags t :: d
+  | TSub bg fg subs =>
+      tile_flags t :: optbytes bg ++ optbytes fg ++
+      match subs with Some (_, l) => Z.of_nat (length l) :: concat l | None => [] end
+  end.
+
+(* Tight *)
+Definition pcompact (n : Z) : list Z :=
+  if n <? 128 then [n]
+  else if n <? 16384 then [n mod 128 + 128; n / 128]
+  else [n mod 128 + 128; (n / 128) mod 128 + 128; n / 16384].
+
+Inductive tfilter := FNone | FCopy | FGradient | FPalette (colors : list (list Z)).
+Inductive tdata := DRaw (d : list Z) | DComp (d : list Z).      (* < 12 bytes verbatim / compact length + bytes *)
+Inductive tbody :=
+| TbFill (r : Z) (pix : list Z)
+| TbJpeg (r : Z) (d : list Z)
+| TbPng (r : Z) (d : list Z)
+| TbBasic (r stream : Z) (nozlib : bool) (f : tfilter) (d : tdata).   (* r: the four stream-reset bits *)
+
+Definition print_tdata (d : tdata) : list Z :=
+  match d with DRaw b => b | DComp b => pcompact (Z.of_nat (length b)) ++ b end.
+
+Definition print_tfilter (f : tfilter) : list Z :=
+  match f with
+  | FNone => []
+  | FCopy => [tightFilterCopy]
+  | FGradient => [tightFilterGradient]
+  | FPalette cols => [tightFilterPalette; Z.of_nat (length cols) - 1] ++ concat cols
+  end.
+
+Definition print_tbody (t : tbody) : list Z :=
+  match t with
+  | TbFill r p => (tightFill * 16 + r) :: p
+  | TbJpeg r d => (tightJpeg * 16 + r) :: pcompact (Z.of_nat (length d)) ++ d
+  | TbPng r d => (tightPng * 16 + r) :: pcompact (Z.of_nat (length d)) ++ d
+  | TbBasic r st nz f d =>
+      let comp := (if nz then tightNoZlib else st) + (match f with FNone => 0 | _ => tightExplicitFilter end) in
+      (comp * 16 + r) :: print_tfilter f ++ print_tdata d
+  end.
+
 (* rectangle payloads with explicit contents; [data] fields are opaque byte strings *)
 Inductive body :=
 | BRaw (data : list Z)
@@ -413,7 +483,9 @@ Inductive body :=
 | BCursorRich (payload : list Z)
 | BEmpty                                             (* PointerPos, LED, NewFBSize *)
 | BBlob (data : list Z)                              (* SupportedMessages/Encodings, ServerIdentity *)
-| BExtDesktop (screens : list (list Z)).             (* 16 bytes each *)
+| BExtDesktop (screens : list (list Z))              (* 16 bytes each *)
+| BHextile (tiles : list tile)
+| BTight (t : tbody).
 
 Definition print_body (b : body) : list Z :=
   match b with
@@ -427,6 +499,8 @@ Definition print_body (b : body) : list Z :=
   | BEmpty => []
   | BBlob d => d
   | BExtDesktop scr => [Z.of_nat (length scr); 0; 0; 0] ++ concat scr
+  | BHextile tiles => concat (map print_tile tiles)
+  | BTight t => print_tbody t
   end.
 
 Definition print_rect (r : hdr * body) : list Z :=
